@@ -758,8 +758,10 @@ skipRule:
 	for i := n - 1; i >= 0; i-- {
 		rule := rules[i]
 
-		// Remove rules with selectors that don't apply to anything (e.g. ":is()")
-		if r, ok := rule.Data.(*css_ast.RSelector); ok && allSelectorsAreDead(r.Selectors) {
+		// Remove rules with selectors that don't apply to anything (e.g. ":is()").
+		// Note that nested rules can still apply to something even if the parent
+		// rule doesn't (e.g. ":is() { :is(div, &) { color: red } }").
+		if r, ok := rule.Data.(*css_ast.RSelector); ok && allSelectorsAreDead(r.Selectors) && !containsNestedRules(r.Rules) {
 			continue skipRule
 		}
 
@@ -808,6 +810,17 @@ func containsDeadSelectors(selectors []css_ast.CompoundSelector) bool {
 				// ":is()" and ":where()" never match anything when empty
 				return true
 			}
+		}
+	}
+	return false
+}
+
+func containsNestedRules(rules []css_ast.Rule) bool {
+	for _, rule := range rules {
+		switch rule.Data.(type) {
+		case *css_ast.RDeclaration, *css_ast.RBadDeclaration, *css_ast.RComment:
+		default:
+			return true
 		}
 	}
 	return false
